@@ -17,6 +17,10 @@ const RSA = 0x1205
 
 var MethodOffset = varint.UvarintSize(uint64(DIDCore))
 
+// coreKeyPrefix starts the generic (DIDCore tagged) encoding of a DID whose
+// method is "key".
+var coreKeyPrefix = string(varint.ToUvarint(uint64(DIDCore))) + "key:"
+
 type DID struct {
 	key bool
 	str string
@@ -67,6 +71,12 @@ func Decode(bytes []byte) (DID, error) {
 	if code == Ed25519 || code == RSA {
 		return DID{str: string(bytes), key: true}, nil
 	} else if code == DIDCore {
+		// did:key has its own (multicodec) encoding. A generic encoding of the
+		// method "key" would print as a did:key string, which parses to a
+		// different DID (or not at all).
+		if strings.HasPrefix(string(bytes), coreKeyPrefix) {
+			return Undef, fmt.Errorf("did:key must use the multicodec key encoding")
+		}
 		return DID{str: string(bytes)}, nil
 	}
 	return Undef, fmt.Errorf("unsupported DID encoding: 0x%x", code)
